@@ -162,6 +162,56 @@ pub fn oracle_view(vm: &Vm, bank: &Bank, now: i64) -> OracleView {
             let s = q_int(feed.result.std_dev) * &sc;
             OracleView { loaded: true, why: "swb", spot: p.clone(), spot_sigma: s.clone(), ema: p, ema_sigma: s, k: q_ratio(196, 100), max_conf_frac: frac(bank.config.oracle_max_confidence) }
         }
+        OracleSetup::StakedWithPythPush => {
+            // the group's SOL feed (Pyth push) scaled by the LST rate of the bank's single-validator pool:
+            // (delegated stake - the pool's own 1 SOL) / LST supply, applied to the feed's integer mantissas
+            use anchor_lang::{AnchorDeserialize, Discriminator};
+            use pyth_solana_receiver_sdk::price_update::{PriceUpdateV2, VerificationLevel};
+            use solana_program::program_pack::Pack;
+            let key = bank.config.oracle_keys[0];
+            let Some(a) = vm.get(&key) else { return OracleView::unusable("missing") };
+            if a.owner != pyth_solana_receiver_sdk::ID {
+                return OracleView::unusable("owner");
+            }
+            if a.data.len() < 8 || a.data[..8] != *PriceUpdateV2::DISCRIMINATOR {
+                return OracleView::unusable("discriminator");
+            }
+            let Ok(p) = PriceUpdateV2::deserialize(&mut &a.data[8..]) else { return OracleView::unusable("layout") };
+            if p.verification_level != VerificationLevel::Full {
+                return OracleView::unusable("verification");
+            }
+            let max_age: i64 = if bank.config.oracle_max_age == 0 { 60 } else { bank.config.oracle_max_age as i64 };
+            let m = p.price_message;
+            if m.publish_time.saturating_add(max_age) < now {
+                return OracleView::unusable("stale");
+            }
+            let Some(mint) = vm.get(&bank.config.oracle_keys[1]) else { return OracleView::unusable("lst-mint-missing") };
+            if mint.owner != spl_token::ID {
+                return OracleView::unusable("lst-mint-owner");
+            }
+            let Ok(mint) = spl_token::state::Mint::unpack(&mint.data) else { return OracleView::unusable("lst-mint-layout") };
+            if mint.supply == 0 {
+                return OracleView::unusable("lst-supply-zero");
+            }
+            let Some(pool) = vm.get(&bank.config.oracle_keys[2]) else { return OracleView::unusable("sol-pool-missing") };
+            if pool.data.len() < 164 || pool.data[..4] != 2u32.to_le_bytes() {
+                return OracleView::unusable("sol-pool-state");
+            }
+            let stake = u64::from_le_bytes(pool.data[156..164].try_into().unwrap());
+            let Some(adj) = stake.checked_sub(1_000_000_000) else { return OracleView::unusable("sol-pool-below-one-sol") };
+            let scale = |x: i64| -> Q { Q::from_integer(q_floor(&(q_int(x) * q_int(adj) / q_int(mint.supply)))) };
+            let sc = pow10_signed(m.exponent);
+            OracleView {
+                loaded: true,
+                why: "staked",
+                spot: scale(m.price) * &sc,
+                spot_sigma: q_int(m.conf) * &sc,
+                ema: scale(m.ema_price) * &sc,
+                ema_sigma: q_int(m.ema_conf) * &sc,
+                k: q_ratio(212, 100),
+                max_conf_frac: frac(bank.config.oracle_max_confidence),
+            }
+        }
         _ => OracleView::unusable("unsupported-kind"),
     }
 }
